@@ -73,3 +73,31 @@ func init() {
 		New:    "\tif r.ProtoMajor == 2 && strings.HasPrefix(\n\t\tr.Header.Get(\"Content-Type\"), \"application/grpc\",\n\t) {\n\t\tm.serveGRPC(w, r)\n\t\treturn\n\t}\n\n\tif strings.HasPrefix(\n\t\tr.Header.Get(\"Content-Type\"), \"application/grpc-web\",\n\t) {\n\t\tm.serveGRPCWeb(w, r)\n\t\treturn\n\t}\n",
 		Expect: "prefix-order", Why: "shorter prefix tested first"})
 }
+
+// Controls for the rules and clauses added after the tenth round of seeded changes.
+func init() {
+	control(&Control{ID: "paramorder-unstable-sort", Rule: "PARAM-STABLE-ORDER", File: "larking/rules.go",
+		Old: "func (ps params) set(m proto.Message) error {\n", New: "func (ps params) set(m proto.Message) error {\n\tsort.Slice(ps, func(i, j int) bool { return len(ps[i].fds) < len(ps[j].fds) })\n",
+		Expect: "unstable-sort", Why: "parameter list sorted with sort.Slice"})
+	control(&Control{ID: "varint-single-byte", Rule: "VARINT-PREFIX", File: "larking/codec.go",
+		Old: "\tvar sizeArr [binary.MaxVarintLen64]byte\n\tsizeBuf := protowire.AppendVarint(sizeArr[:0], uint64(len(b)))\n", New: "\tsizeBuf := protowire.AppendVarint(nil, 0)\n\tif len(b) <= 128 {\n\t\tsizeBuf = []byte{byte(len(b))}\n\t} else {\n\t\tsizeBuf = protowire.AppendVarint(sizeBuf[:0], uint64(len(b)))\n\t}\n",
+		Expect: "single-byte-prefix", Why: "128 framed with one byte"})
+	control(&Control{ID: "constindex-off-by-one", Rule: "CONST-INDEX", File: "larking/web.go",
+		Old: "\tct := r.Header.Get(\"Content-Type\")\n", New: "\tct := r.Header.Get(\"Content-Type\")\n\tif len(ct) >= 16 && ct[16] == '!' {\n\t\treturn typ, enc, false\n\t}\n",
+		Expect: "string-index[16]", Why: "length test one short of the index"})
+	control(&Control{ID: "default-for-any-field", Rule: "DEFAULT-SCALAR-ONLY", File: "larking/rules.go",
+		Old: "\t\tfor _, v := range vs {\n\t\t\tp, err := parseParam(fds, []byte(v))\n", New: "\t\tfor _, v := range vs {\n\t\t\tif v == \"\" {\n\t\t\t\tps = append(ps, param{fds: fds, val: fds[len(fds)-1].Default()})\n\t\t\t\tcontinue\n\t\t\t}\n\t\t\tp, err := parseParam(fds, []byte(v))\n",
+		Expect: "default-of-any-field", Why: "Default() of a repeated or message field"})
+	control(&Control{ID: "sidestate-claim-before-failure", Rule: "MUX-SIDE-STATE", File: "larking/mux.go",
+		Old: "func (m *Mux) RegisterConn(ctx context.Context, cc *grpc.ClientConn) error {\n", New: "var claimedConns sync.Map\n\nfunc (m *Mux) RegisterConn(ctx context.Context, cc *grpc.ClientConn) error {\n\tclaimedConns.Store(cc, true)\n",
+		Expect: "side-state-before-failure", Why: "claim recorded outside the snapshot"})
+	control(&Control{ID: "sortedvars-swap-remove", Rule: "SORTED-VARS", File: "larking/rules.go",
+		Old: "\t\t\t\tp.variables = append(\n\t\t\t\t\tp.variables[:i], p.variables[i+1:]...,\n\t\t\t\t)\n", New: "\t\t\t\tlast := len(p.variables) - 1\n\t\t\t\tp.variables[i] = p.variables[last]\n\t\t\t\tp.variables = p.variables[:last]\n",
+		Expect: "order-kept-on-removal", Why: "swap-with-last removal"})
+	control(&Control{ID: "stateslice-edit-offers", Rule: "STATE-SLICE-APPEND", File: "larking/negotiate.go",
+		Old: "\tspecs := parseAccept(header[\"Accept\"])\n", New: "\tif len(offers) > 1 {\n\t\tcopy(offers, offers[1:])\n\t}\n\tspecs := parseAccept(header[\"Accept\"])\n",
+		Expect: "edits-state-slice", Why: "shared offer list edited by a request"})
+	control(&Control{ID: "timeoutkept-rederived", Rule: "TIMEOUT-APPLIED", File: "larking/grpc.go",
+		Old: "\t\tctx = tctx\n\t}\n\n\tmethod := r.URL.Path\n", New: "\t\tctx = tctx\n\t\tctx = metadata.NewIncomingContext(r.Context(), md)\n\t}\n\n\tmethod := r.URL.Path\n",
+		Expect: "timeout-kept", Why: "context re-derived from the request after the timeout was installed"})
+}
